@@ -19,6 +19,11 @@ def swarm(rng):
                 "max_depth": rng.choice([2, 3]), "n_queries": rng.choice([8, 14, 20]), "export_refs_in_formula": False,
                 "p_item_eval": 0.75, "simple_cond": True, "export_subset": True, "split_ref_names": True, "clash": False, "ancestor_params": True, "p_comp_shadow": rng.choice([0.0, 0.5]), "nested_item_eval": True,
                 "prefer_read": rng.choice([["ancestor_param", "space_param"], ["attr_model", "attr_other"], []])})
+    if rng.random() < 0.3:
+        # names the generated code could trip over: a cells parameter called like the result variable of the generated cache
+        # method or like a reference (so that keyword calls carry a global's name), ItemSpace parameters called like built-ins
+        cfg["cells_param_names"] = rng.choice([["val", "k"], ["x", "m"], ["val", "y"]])
+        cfg["space_param_names"] = rng.choice([["id", "type"], ["i", "j"], ["max", "j"]])
     if cfg["p_objref"]:
         # relative references in ItemSpaces are a documented limitation of the exporter: object-valued references are
         # either absolute, or the model has no parameter formulas at all
@@ -93,6 +98,11 @@ class C15(PropBase):
             gen.gen_space_formula = sf
             try:
                 mach.build(cfg["n_spaces"], cfg["n_cells"], cfg["n_refs"])
+                if mach.rng.random() < 0.2:
+                    # a float reference without a literal of its own
+                    sps = [""] + [x.path() for x in mach.ref.all_spaces()]
+                    mach.do({"op": "set_ref", "space": mach.rng.choice(sps), "name": "zinf",
+                             "value": {"t": "float", "v": mach.rng.choice([float("inf"), -float("inf")])}})
                 hw = dict(HIST_W)
                 if not cfg.get("p_sformula"):
                     hw.pop("sformula")
